@@ -362,6 +362,8 @@ enum Beh {
     Kill,
     Detached,
     Sleep(u64), // sleeps that long (ms) and passes; used with a document limit
+    /// Cram only: the command leaves the shell (`exit N`): the one script ends here
+    ExitShell(i32),
 }
 
 #[derive(Clone, Debug)]
@@ -417,6 +419,8 @@ fn render_doc(d: &EDoc, di: usize, marker: &Path) -> (String, Vec<T>) {
                     ("sleep 0.01".to_string(), "", None, T { status: St::Detached, acc_empty: true, ..base })
                 }
                 Beh::Sleep(ms) => (format!("{mark}; sleep {}.{:03}; echo ok", ms / 1000, ms % 1000), "ok", None, T { dur: Some(*ms), ..base }),
+                // dur = Some(1) is the model's marker for "leaves the shell with this code"
+                Beh::ExitShell(c) => (format!("{mark}; echo ok; exit {c}"), "ok", Some(*c), T { expected: Some(*c), status: St::Code(*c), dur: Some(1), ..base }),
             }
         };
         if d.cram {
@@ -444,6 +448,10 @@ fn render_doc(d: &EDoc, di: usize, marker: &Path) -> (String, Vec<T>) {
 }
 
 /// independent statement of what the run must report (written from the property texts)
+fn doc_errs(d: &EDoc) -> bool {
+    spec_outcomes(d).is_none()
+}
+
 fn spec_outcomes(d: &EDoc) -> Option<Vec<(usize, &'static str)>> {
     if d.broken {
         return None;
@@ -457,9 +465,17 @@ fn spec_outcomes(d: &EDoc) -> Option<Vec<(usize, &'static str)>> {
     };
     let n = d.tests.len();
     if d.cram {
-        // all run in one script; any skip code skips the document
-        if d.tests.iter().any(|(b, _)| matches!(b, Beh::Skip(_))) {
+        // all run in one script, up to a command that leaves the shell
+        let upto = d.tests.iter().position(|(b, _)| matches!(b, Beh::ExitShell(_))).unwrap_or(n);
+        if let Some((Beh::ExitShell(80), _)) = d.tests.get(upto) {
             return Some((0..n).map(|i| (i, "skipped")).collect());
+        }
+        // a test case that ended with the skip code skips the document
+        if d.tests[..upto].iter().any(|(b, _)| matches!(b, Beh::Skip(_))) {
+            return Some((0..n).map(|i| (i, "skipped")).collect());
+        }
+        if upto < n {
+            return None; // fewer results than test cases: scrut cannot assign them, exit 1
         }
         return Some(d.tests.iter().enumerate().map(|(i, (b, _))| (i, kinds(b))).collect());
     }
@@ -500,6 +516,9 @@ fn spec_markers(d: &EDoc, di: usize) -> Vec<String> {
         }
         v.push(format!("D{di}T{ti}"));
         if !d.cram && matches!(b, Beh::Skip(_) | Beh::Timeout | Beh::Kill) {
+            break;
+        }
+        if d.cram && matches!(b, Beh::ExitShell(_)) {
             break;
         }
     }
@@ -552,7 +571,8 @@ fn e2e_case(prop: &str, docs: Vec<EDoc>, tmproot: &Path, idx: u64) -> CaseRec {
         fails.push((format!("{prop}:no-json"), format!("exit {code}, no JSON on stdout: {}", String::from_utf8_lossy(&out.stderr).chars().take(200).collect::<String>())));
     }
     // canonical implementation line (same shape as the model's `rundocs`)
-    let first_err = docs.iter().position(|d| d.broken);
+    let first_err = docs.iter().position(doc_errs);
+    let first_broken = docs.iter().position(|d| d.broken);
     let shown: Vec<String> = docs
         .iter()
         .enumerate()
@@ -571,13 +591,21 @@ fn e2e_case(prop: &str, docs: Vec<EDoc>, tmproot: &Path, idx: u64) -> CaseRec {
     // direct oracles -------------------------------------------------------------------------
     let want_exit = if first_err.is_some() {
         1
-    } else if docs.iter().any(|d| spec_outcomes(d).unwrap().iter().any(|(_, k)| *k != "success" && *k != "skipped")) {
+    } else if docs.iter().any(|d| spec_outcomes(d).unwrap_or_default().iter().any(|(_, k)| *k != "success" && *k != "skipped")) {
         50
     } else {
         0
     };
     if code != want_exit {
         fails.push(("C20:exit-status".into(), format!("exit status {code}, expected {want_exit}")));
+    }
+    // markers: documents before an execution error did run (a parse error prevents every run)
+    if first_broken.is_none() && first_err.is_some() {
+        let marks: Vec<String> = std::fs::read_to_string(&marker).unwrap_or_default().lines().map(|l| l.to_string()).collect();
+        let want: Vec<String> = docs.iter().enumerate().take(first_err.unwrap() + 1).flat_map(|(di, d)| spec_markers(d, di)).collect();
+        if marks != want {
+            fails.push(("C20:execution-order".into(), format!("executed {:?}, expected {:?}", marks, want)));
+        }
     }
     if first_err.is_none() {
         for (di, d) in docs.iter().enumerate() {
@@ -595,6 +623,10 @@ fn e2e_case(prop: &str, docs: Vec<EDoc>, tmproot: &Path, idx: u64) -> CaseRec {
                     "C20:results-e2e"
                 };
                 fails.push((cls.into(), format!("document {di}: reported {:?}, expected {:?}", got, wantv)));
+                if cls != "C20:results-e2e" {
+                    // whatever else it is, it is also a wrong set of results for the test cases
+                    fails.push(("C20:results-e2e".into(), format!("document {di}: reported {:?}, expected {:?}", got, wantv)));
+                }
                 if got.iter().any(|(i, k)| k == "success" && !wantv.contains(&(*i, "success".into()))) {
                     fails.push(("C05:false-success-e2e".into(), format!("document {di}: {:?} reported as succeeded", got)));
                 }
@@ -635,11 +667,13 @@ fn gen_edoc(rng: &mut Rng, allow_broken: bool) -> EDoc {
     let mut tests = vec![];
     for _ in 0..n {
         let b = if cram {
-            match rng.below(8) {
+            match rng.below(10) {
                 0 => Beh::BadOut,
                 1 => Beh::BadCode(3),
                 2 => Beh::PassCode(2),
                 3 => Beh::Skip(None),
+                4 => Beh::ExitShell(3),
+                5 => Beh::ExitShell(80),
                 _ => Beh::Pass,
             }
         } else {
@@ -812,6 +846,26 @@ pub fn run(ctx: &Ctx, prop: &str) {
         let nd = rng.range(1, 3);
         let docs: Vec<EDoc> = (0..nd).map(|_| gen_edoc(&mut rng, true)).collect();
         Some(e2e_case(prop, docs, &tr, idx))
+    });
+    // 3b. every ordered pair of behaviours in one Markdown document: [a, pass, b, pass]
+    let behs = [Beh::Pass, Beh::PassCode(2), Beh::BadOut, Beh::BadCode(3), Beh::Skip(None), Beh::Skip(Some(7)), Beh::Timeout, Beh::Kill, Beh::Detached];
+    let tr = tmproot.clone();
+    let nb = behs.len() as u64;
+    ctx.run_stream("e2e-behaviour-pairs-exhaustive", nb * nb, true, |idx| {
+        let a = behs[(idx / nb) as usize].clone();
+        let b = behs[(idx % nb) as usize].clone();
+        let to = |x: &Beh| if matches!(x, Beh::Timeout) { Some(300) } else { None };
+        let tests = vec![(a.clone(), to(&a)), (Beh::Pass, None), (b.clone(), to(&b)), (Beh::Pass, None)];
+        Some(e2e_case(prop, vec![EDoc { cram: false, broken: false, total: None, tests }], &tr, 10_000 + idx))
+    });
+    let cbehs = [Beh::Pass, Beh::PassCode(2), Beh::BadOut, Beh::BadCode(3), Beh::Skip(None), Beh::ExitShell(3), Beh::ExitShell(80), Beh::ExitShell(0)];
+    let tr = tmproot.clone();
+    let ncb = cbehs.len() as u64;
+    ctx.run_stream("e2e-cram-behaviour-pairs-exhaustive", ncb * ncb, true, |idx| {
+        let a = cbehs[(idx / ncb) as usize].clone();
+        let b = cbehs[(idx % ncb) as usize].clone();
+        let tests = vec![(a, None), (Beh::Pass, None), (b, None), (Beh::Pass, None)];
+        Some(e2e_case(prop, vec![EDoc { cram: true, broken: false, total: None, tests }], &tr, 20_000 + idx))
     });
     // 4. wall-clock documents (C14; a short list, each a few seconds at most)
     if prop == "C14" || ctx.thorough {
